@@ -47,7 +47,13 @@ class Facts:
         self.impls = {i['id']: i for i in r['impls']}
         self.traits = {t['path']: t for t in r['traits']}
         self.consts = {c['path']: c for c in r['consts']}
-        self.fmt = r['fmt']
+        # format_args! templates and (separately) the inert attributes of struct / enum items from the expanded AST
+        self.fmt = [x for x in r['fmt'] if 'adt_attrs' not in x]
+        self.adt_attrs = {}
+        for x in r['fmt']:
+            if 'adt_attrs' in x:
+                rec = x['adt_attrs']
+                self.adt_attrs[(rec['at'][0], rec['at'][1], rec['name'])] = rec['attrs']
         # instances: root def id -> list of instance records
         self.inst_roots = {ir['root']: ir['insts'] for ir in r['instances']}
         for insts in self.inst_roots.values():
